@@ -511,7 +511,13 @@ pub struct BatchReport {
 
 pub fn run_batch(cfg: BatchCfg) -> BatchReport {
     let started = Instant::now();
-    let known = load_known_findings();
+    // (WACSIM_IGNORE_KNOWN is a maintenance switch: it makes open findings produce fresh
+    // replay files; never set by the registered commands)
+    let known = if std::env::var_os("WACSIM_IGNORE_KNOWN").is_some() {
+        Vec::new()
+    } else {
+        load_known_findings()
+    };
     let recheck_modulus = if cfg.recheck == 0 { 0 } else { (cfg.runs / cfg.recheck).max(1) };
 
     // ---- chunk list ----
